@@ -9,6 +9,13 @@ PROGS = {
     "user-like": ('let v = W { s: "abcdef".to_string() };', 'v, W { s: =~ Prefix("abc") }', True, True),
     "user-like-fails": ('let v = W { s: "xbcdef".to_string() };', 'v, W { s: =~ Prefix("abc") }', True, True),
     "regex-literal": ('let v = W { s: "abc".to_string() };', 'v, W { s: =~ "a.c" }', True, False),
+    # every regex literal needs the feature, whatever its text: plain text, anchored, empty, raw, with escapes
+    "regex-literal-plain-text": ('let v = W { s: "abc".to_string() };', 'v, W { s: =~ "abc" }', True, False),
+    "regex-literal-plain-word-in-option": ('#[derive(Debug)] struct O { s: Option<String> } let v = O { s: Some("Developer".to_string()) };', 'v, O { s: Some(=~ "Developer") }', True, False),
+    "regex-literal-anchored": ('let v = W { s: "abc".to_string() };', 'v, W { s: =~ "^abc$" }', True, False),
+    "regex-literal-empty": ('let v = W { s: "abc".to_string() };', 'v, W { s: =~ "" }', True, False),
+    "regex-literal-raw": ('let v = W { s: "abc".to_string() };', 'v, W { s: =~ r"abc" }', True, False),
+    "regex-literal-at-root-on-str": ('let v = "abc";', 'v, =~ "abc"', True, False),
     "string-like-impl": ('let v = W { s: "abc".to_string() }; let pat = "a.c".to_string();', 'v, W { s: =~ pat }', True, False),
     "no-regex-at-all": ('let v = W { s: "abc".to_string() };', 'v, W { s: "abc" }', True, True),
     # user impls on the user's own string-like type (it implements AsRef<str>, Deref<Target = str>, Display): the built-in impls must not get in their way
